@@ -29,7 +29,7 @@ SHARDS = {"quick": 4, "thorough": 16}
 EXCLUDE_R7 = sc.EXCLUDE_R7  # species outside the region of known finding R7 only (see strategies/supercells.py)
 # finding: equivalencemap raises ValueError (min() of an empty dict) when neither supercell has a defect.
 # While True every generated occupation A has at least one defect (a forced defect is appended by construction).
-EXCLUDE_NODEFECT = "NODEFECT" not in sc.NO_EXCLUDE
+EXCLUDE_NODEFECT = False  # R19 fixed in /repo: defect-free pairs are part of the ordinary search
 SIG_NODEFECT = "defect-free"
 
 TOL = 1e-7
@@ -312,7 +312,7 @@ def run(ctx):
 
     ctx.corpus(check)
     ctx.known(check)
-    ctx.given(cases(), counted, quick=400, thorough=16000)
+    ctx.given(cases(), counted, quick=400, thorough=12000)
 
 
 def replay(case):
